@@ -61,17 +61,17 @@ def wild_edit(rng, spec):
                 m = rng.choice(ms)
                 m["ins"] = [i for i in m["ins"] if i[0] != t] + [[t, rng.choice(["ref", "mut"])]]
             return op
-    if op == "generic_wrapper" and types and "W0" not in spec["types"]:
-        # a generic constructor `fn cw<T>(t: &T) -> W0<T>` specialised at two types
+    if op == "generic_wrapper" and types and "GW0" not in spec["types"]:
+        # a generic constructor `fn cw<T>(t: &T) -> GW0<T>` specialised at two types
         lc = rng.choice(["request", "transient"])
-        spec["types"]["W0"] = {"lc": lc, "disc": "shared", "generic": True, "clone": rng.random() < 0.5}
-        spec["ctors"]["CW0"] = {"out": "W0<T>", "ins": [["T", rng.choice(["ref", "ref", "val"])]], "lc": lc, "generic_param": "T"}
+        spec["types"]["GW0"] = {"lc": lc, "disc": "shared", "generic": True, "clone": rng.random() < 0.5}
+        spec["ctors"]["CW0"] = {"out": "GW0<T>", "ins": [["T", rng.choice(["ref", "ref", "val"])]], "lc": lc, "generic_param": "T"}
         spec["bp"]["items"].insert(0, ["ctor", "CW0"])
         cands = [t for t in types if not spec["types"][t].get("generic") and spec["types"][t]["lc"] != "singleton" or lc != "singleton"]
         users = [x for (_k, _id, x) in comps(spec)]
         for t in rng.sample(cands, min(2, len(cands))):
             if users:
-                rng.choice(users).setdefault("ins", []).append(["W0<%s>" % t, "ref"])
+                rng.choice(users).setdefault("ins", []).append(["GW0<%s>" % t, "ref"])
         return op
     if op == "never_clone_with_clone_impl_twice" and types:
         t = rng.choice(types)
